@@ -25,7 +25,7 @@ Two uses, both on every run:
 namespace Ndx.TGraph
 open Ndx
 
-inductive BOp | add | sub | mul | mod0 | equal | less | and | or
+inductive BOp | add | sub | mul | mod0 | equal | less | and | or | xor
 deriving DecidableEq, Repr
 
 inductive RKind | sum | prod | min | max
@@ -154,6 +154,7 @@ def evalBOp : BOp → Int → Int → Int
   | .less, a, b => b2i (decide (a < b))
   | .and, a, b => b2i (a != 0 && b != 0)
   | .or, a, b => b2i (a != 0 || b != 0)
+  | .xor, a, b => b2i ((a != 0) != (b != 0))
 
 def bcast2 (f : Int → Int → Int) (a b : Tensor Int) : Tensor Int :=
   let out := (bshape a.shape b.shape).getD a.shape
@@ -254,7 +255,7 @@ def showNats (l : List Nat) : String := if l.isEmpty then "-" else ",".intercala
 
 def BOp.render : BOp → String
   | .add => "Add" | .sub => "Sub" | .mul => "Mul" | .mod0 => "Mod0" | .equal => "Equal" | .less => "Less"
-  | .and => "And" | .or => "Or"
+  | .and => "And" | .or => "Or" | .xor => "Xor"
 
 def RKind.render : RKind → String
   | .sum => "ReduceSum" | .prod => "ReduceProd" | .min => "ReduceMin" | .max => "ReduceMax"
